@@ -119,4 +119,6 @@ def main(tier):
     rep.attempt(lanemacro.check, rep, 'MAD', {'ec_mad'}, 1100)
     import tailmask
     rep.attempt(tailmask.check, rep, 250)
+    import c16
+    rep.attempt(c16.check_tablefmt, rep)
     return rep.finish()
